@@ -140,26 +140,91 @@ theorem C19_no_spurious_refusal (G : Nat) (r : RateLimiter) (t qps cNew cT cG : 
   unfold RateLimiter.checkLimit
   simp [hb, hg, h1, h2]
 
-/-- the full per-tenant statement under concurrency, kept visible.  It is NOT a theorem of the
-    faithful model: between "global refused" and "refund" another caller can drain the refilled
-    bucket, so a window can see `burst + rate·Δ + (#callers stalled before their refund)`
-    admissions.  Known finding KF-C19-refund-window (replayed by the scheduler check). -/
-def TenantAllSchedulesStatement : Prop :=
-  ∀ (G : Nat) (b : Bucket) (events : List (Nat × Bool)),   -- (clock reading, is-refund)
-    b.tokens ≤ b.cap * G →
-    (events.foldl (fun (acc : Bucket × Nat) ev =>
-        if ev.2 then (acc.1.refundOne G, acc.2)
-        else ((acc.1.tryConsume G ev.1).1, acc.2 + if (acc.1.tryConsume G ev.1).2 then 1 else 0))
-      (b, 0)).2 * G ≤ b.cap * G + ((events.map (·.1)).foldl max b.last - b.last) * b.rate
+/-! ### the tenant bucket under every interleaving -/
 
-/-- witness refuting it: rate 1/s, burst 1; a consume at t=0 (to be refunded), the bucket
-    refills, a consume at t=1s is admitted, then the late refund arrives and a third consume
-    at t=1s is admitted too: 3 admissions where `1 + 1·1` is the bound. -/
-theorem C19_refund_window_witness : ¬ TenantAllSchedulesStatement := by
-  intro h
-  have := h 1000 ⟨1, 1, 1000, 0⟩ [(0, false), (1000, false), (1000, true), (1000, false)] (by decide)
-  revert this
-  decide
+/-- one whole `check_limit` as the tenant bucket sees it now that it stays locked until the global
+    outcome is known (fix 78e4fe2): consume, and hand the token back when the global bucket refuses
+    (`globalOk = false`) — one atomic step of the bucket -/
+def tenantCall (G : Nat) (b : Bucket) (now : Nat) (globalOk : Bool) : Bucket × Bool :=
+  if (b.tryConsume G now).2 then
+    if globalOk then ((b.tryConsume G now).1, true) else ((b.tryConsume G now).1.refundOne G, false)
+  else ((b.tryConsume G now).1, false)
+
+def tenantCalls (G : Nat) (b : Bucket) : List (Nat × Bool) → Bucket × Nat
+  | [] => (b, 0)
+  | (t, g) :: rest =>
+    ((tenantCalls G (tenantCall G b t g).1 rest).1,
+      (if (tenantCall G b t g).2 then 1 else 0) + (tenantCalls G (tenantCall G b t g).1 rest).2)
+
+theorem rel_tenantCall (G : Nat) (b : Bucket) (now : Nat) (g : Bool) (hc : b.tokens ≤ b.cap * G)
+    (hnow : b.last ≤ now) :
+    Rel G b (tenantCall G b now g).1 (if (tenantCall G b now g).2 then 1 else 0) := by
+  have h1 := rel_tryConsume G b now hc hnow
+  unfold tenantCall
+  cases hok : (b.tryConsume G now).2 with
+  | false => rw [hok] at h1; simpa using h1
+  | true =>
+    rw [hok] at h1
+    cases g with
+    | true => simpa using h1
+    | false =>
+      simp only [↓reduceIte, Bool.false_eq_true]
+      exact rel_refund G b _ 0 (by simpa using h1)
+
+theorem tenantCall_last (G : Nat) (b : Bucket) (now : Nat) (g : Bool) (hnow : b.last ≤ now) :
+    (tenantCall G b now g).1.last = now := by
+  have hl : (b.tryConsume G now).1.last = now := by
+    unfold tryConsume; split <;> exact refill_last G b now hnow
+  unfold tenantCall
+  split
+  · split
+    · exact hl
+    · simpa [refundOne] using hl
+  · exact hl
+
+theorem tenantCalls_rel (G : Nat) (b : Bucket) (evs : List (Nat × Bool)) (hc : b.tokens ≤ b.cap * G)
+    (hm : Monotone b.last (evs.map (·.1))) : Rel G b (tenantCalls G b evs).1 (tenantCalls G b evs).2 := by
+  induction evs generalizing b with
+  | nil => exact Rel.refl G b hc
+  | cons e rest ih =>
+    obtain ⟨t, g⟩ := e
+    simp only [List.map_cons, Monotone] at hm
+    simp only [tenantCalls]
+    have h1 := rel_tenantCall G b t g hc hm.1
+    have h2 := ih (tenantCall G b t g).1 h1.capped (by rw [tenantCall_last G b t g hm.1]; exact hm.2)
+    exact Rel.trans h1 h2
+
+/-- **The tenant bound under every interleaving** (after fix 78e4fe2).  The tenant bucket stays
+    locked from the consume to the possible refund, and the clock is read inside, so whatever the
+    interleaving of callers — and whatever the global bucket answers to each (`globalOk` arbitrary) —
+    the bucket sees one sequence of atomic calls at monotone readings and
+    `admitted ≤ burst + rate·elapsed`. -/
+theorem C19_tenant_all_schedules (G : Nat) (b : Bucket) (evs : List (Nat × Bool))
+    (hc : b.tokens ≤ b.cap * G) (hm : Monotone b.last (evs.map (·.1))) :
+    (tenantCalls G b evs).2 * G ≤ b.cap * G + ((tenantCalls G b evs).1.last - b.last) * b.rate := by
+  have := (tenantCalls_rel G b evs hc hm).conserve
+  omega
+
+/-- the PRE-FIX protocol on one tenant bucket: a caller whose global attempt failed released the
+    bucket between its consume (`stalled t`) and its refund (`refund`); other callers (`call t`,
+    global willing) ran in between -/
+inductive Ev | stalled (t : Nat) | call (t : Nat) | refund
+deriving DecidableEq
+
+def runPre (G : Nat) (b : Bucket) : List Ev → Bucket × List Nat      -- the clock readings of ADMITTED calls
+  | [] => (b, [])
+  | .stalled t :: rest => runPre G (b.tryConsume G t).1 rest
+  | .call t :: rest =>
+    ((runPre G (b.tryConsume G t).1 rest).1,
+      (if (b.tryConsume G t).2 then [t] else []) ++ (runPre G (b.tryConsume G t).1 rest).2)
+  | .refund :: rest => runPre G (b.refundOne G) rest
+
+/-- **The defect the fix removes** (found by the scheduler exploration of `./check C19`): rate 1/s,
+    burst 1; a stalled caller holds the bucket's token from t = 0, the bucket refills, a call at
+    t = 1 s is admitted, the late refund arrives, a second call at t = 1 s is admitted too — two
+    admissions in an interval of length zero where the bound is the burst, 1. -/
+theorem C19_prefix_refund_window :
+    (runPre 1000 ⟨1, 1, 1000, 0⟩ [.stalled 0, .call 1000, .refund, .call 1000]).2 = [1000, 1000] := by decide
 
 /-! ### non-vacuity -/
 example : (consumeAll 1000 (Bucket.new 1000 2 0) [0, 0, 0, 500, 500, 1000]).2 = 4 := by decide
